@@ -267,7 +267,17 @@ def check_flags(model, rep, sx):
         if bad_val:
             rep.violation('C09.flags', f'{cls}.{flag}', f'flag {bad_val}', mem.loc)
             continue
-        bad, atoms = truth_table(paths, dnf)
+        # a mating role is only ever written together with the link to the mate (C10.atomic / C10.effects, absorbed below):
+        # `role set, mate missing` is not a state of a gear, whatever a flag would answer there
+        excl = []
+        if cls in model.classes and model.find_member(cls, 'mating_role') is not None:
+            for e in ('self.mating_role == MatingMaster and self.drives is None',
+                      'self.mating_role == MatingSlave and self.driven_by is None'):
+                try:
+                    excl += spec.guard_dnf(e)
+                except Exception:
+                    pass
+        bad, atoms = truth_table(paths, dnf, excluded_dnf=excl)
         if bad is None:
             rep.cannot('C09.flags', f'{cls}.{flag}', f'too many atoms: {len(atoms)}', mem.loc)
         elif bad:
@@ -430,5 +440,16 @@ def check(model, rep):
     check_contact(model, rep, sx)
     check_flags(model, rep, sx)
     check_tables(model, rep)
+    # the formulas read the mate through mating_role / drives / driven_by: those are what the relation functions wrote,
+    # role and link together, by accepted declarations only (C10's effect and atomicity rules)
+    from sa.core import Report
+    from checks import c10
+    dep = Report('C10')
+    c10.check(model, dep)
+    for i in dep.instances:
+        if i.rule in ('C10.effects', 'C10.atomic'):
+            (rep.holds if i.status == 'HOLDS' else (rep.violation if i.status == 'VIOLATION' else rep.cannot))(
+                'C09.dep.mate.' + i.rule.split('.')[1], i.construct, i.detail, i.loc)
+    sxm.POSITIVE_ATOMS.clear()
     rep.assume('quantity operators are dimensionally sound and unit-blind (C05/C06)')
     rep.assume('scipy.interpolate.interp1d with default kind interpolates linearly between the tabulated rows')
